@@ -1,5 +1,6 @@
 from excel2pycl.src.context import Context
 from excel2pycl.src.excel import Excel
+from excel2pycl.src.exceptions import E2PyclParserException
 from excel2pycl.src.tokens import ExpressionToken, AmpersandToken, DateControlConstructionToken, \
     TodayControlConstructionToken, EqOperatorToken, NotEqOperatorToken, GtOperatorToken, GtOrEqualOperatorToken, \
     LtOperatorToken, LtOrEqualOperatorToken, PercentToken, OneLeftOperandExpressionToken
@@ -17,6 +18,9 @@ class ExpressionTokenTranslator(AbstractTranslator):
         from excel2pycl.src.translators.operand_token_translator import OperandTokenTranslator
 
         if isinstance(token, OneLeftOperandExpressionToken):
+            if len(token.value) > 2:
+                # `5%6%`: a second operand straight after the percent sign is not part of any formula
+                raise E2PyclParserException(f'The formula of the cell {token.in_cell} has an operand straight after a percent sign')
             left_operand = OperandTokenTranslator.translate(token.left_operand, excel, context)
             return f'self._normalize_float_number({left_operand} / 100)'
 
